@@ -988,6 +988,25 @@ func main() {
 		maxLen, seeds = 7, 1<<13
 	}
 	inputs := seqs(3, maxLen)
+	// longer, structured inputs (lengths the exhaustive part cannot reach)
+	var long [][]int
+	for n := 8; n <= 33; n++ {
+		mk := func(f func(i int) int) []int {
+			x := make([]int, n)
+			for i := range x {
+				x[i] = f(i)
+			}
+			return x
+		}
+		long = append(long, mk(func(i int) int { return 1 }), mk(func(i int) int { return i % 2 }), mk(func(i int) int { return i % 3 }), mk(func(i int) int { return (n - i) % 3 }),
+			mk(func(i int) int {
+				if i > 2 && i < n-2 {
+					return 2
+				}
+				return i % 2
+			}))
+	}
+	inputs = append(inputs, long...)
 	// in-place functions get values 1..3 so that zeroed slots would show
 	vx.Parallel(len(inputs), func(i int) {
 		s := clone(inputs[i])
@@ -1007,7 +1026,7 @@ func main() {
 			}
 		}
 	}
-	sortInputs := seqs(3, 5)
+	sortInputs := append(seqs(3, 5), long[:60]...)
 	vx.Parallel(len(sortInputs), func(i int) {
 		for _, r := range ranks {
 			checkXsort(sortInputs[i], r)
@@ -1025,6 +1044,20 @@ func main() {
 			}
 		}
 	})
+	// four and five inputs
+	tiny := seqs(3, 1)
+	for _, a := range tiny {
+		for _, b := range tiny {
+			for _, c := range tiny {
+				for _, d := range tiny {
+					for _, r := range ranks {
+						checkMerge([][]int{a, b, c, d}, r)
+					}
+					checkMerge([][]int{a, b, {0, 1, 2}, c, d}, [3]int{0, 1, 2})
+				}
+			}
+		}
+	}
 	checkMerge(nil, [3]int{0, 1, 2})
 	checkMerge([][]int{{}}, [3]int{0, 1, 2})
 	checkXmaps()
